@@ -38,6 +38,12 @@ prop("C03", claimed=True, level="model_checking", engine="E-SEQ",
      note="Bounded alphabet / sizes; phrase slop is a sandwich oracle (in-order alignments must match, any alignment may); regex / fuzzy dialects restricted to a common subset; JSON and facet fields are covered in C07 / C16.",
      design_ref="3/C03")
 
+prop("C13", claimed=True, level="model_checking", engine="E-SEQ (explicit-state)",
+     technique="explicit-state search over (reference index) states: every program of <= L DocSet calls replayed on a fresh real scorer from every designated state reached by three canonical paths, compared step by step with the plain-advance sequence",
+     text="35 scorer instances obtained through Weight::scorer (term, all, empty, bitset / term-set, fast-field range, unions, intersections, exclusions, required-optional, minimum-should-match disjunction, phrase, phrase-prefix, boost / const / dis-max and nestings putting each under an intersection, union and exclusion) on a 9000-document corpus; from ~28 designated positions (64 / 128 / 1024 / 4096 boundaries, ends) reached by advance-only, one seek and two seeks, every program of <= 2 (thorough 3) operations over 22 (29) operations incl. seek_danger loops, fill_buffer, fill_bitset_block and count; doc(), return values, lower bounds and bit-identical scores are checked after every step.",
+     note="Program length, designated states and the corpus are bounded; seek_danger is only issued with targets >= doc() and strictly increasing candidates (targets below doc(), as Exclude issues them, are covered by C03); SeekDangerResult is decoded from its Debug rendering because the crate does not export it.",
+     design_ref="3/C13")
+
 ALL = ["C%02d" % i for i in range(1, 21)]
 REASON_TODO = "check not built yet in this revision of /verif (design in DESIGN.md section 3); will be claimed when its engine lands"
 
